@@ -93,6 +93,7 @@ Theorem C05_resumption_restores : forall en s c cs,
   e_key en = KAes /\
   n_cmd (cs_neg cs) = c /\ n_sid (cs_neg cs) = s /\
   n_authn (cs_neg cs) = e_authn en /\ n_user (cs_neg cs) = e_user en /\
+  n_valid (cs_neg cs) = e_valid en /\
   cs_auth_real cs = e_auth_real en /\
   n_enc (cs_neg cs) = true /\ cs_enc_real cs = true /\ n_resumed (cs_neg cs) = true.
 Proof. exact resume_restores. Qed.
@@ -165,11 +166,32 @@ Example C05_real_needs_faithful_entries :
   exists evs i, In i (history_invocations [] evs) /\ i_rawpath i = false /\
                 requires_authn (policy_now i) = true /\ i_auth_real i = false.
 Proof.
-  exists [ EImport 1%N {| e_key := KAes; e_authn := true; e_user := 2%N; e_auth_real := false |};
+  exists [ EImport 1%N {| e_key := KAes; e_authn := true; e_user := 2%N; e_valid := [1005%Z]; e_auth_real := false |};
            EConn {| c_srv := ex_srv None; c_peer := 1%N; c_first := Some DC_AUTHENTICATE;
                     c_hs := HsResume 1%N (Some 1005%Z) true; c_steps := [] |} ].
   eexists. split; [vm_compute; left; reflexivity|]. vm_compute. auto.
 Qed.
+
+(* The ValidCommands a resumed (claim) session carries are restored but grant nothing:
+   C05_dispatch holds for every stored list. Witness: the entry names the command, the
+   current authorizer denies the identity, nothing runs and the connection is refused. *)
+Example C05_stored_valid_commands_do_not_authorize :
+  run_history []
+    [ EImport 1%N {| e_key := KAes; e_authn := true; e_user := 2%N; e_valid := [1005%Z]; e_auth_real := true |};
+      EConn {| c_srv := ex_srv (Some (fun _ _ _ => false)); c_peer := 1%N; c_first := Some DC_AUTHENTICATE;
+               c_hs := HsResume 1%N (Some 1005%Z) true; c_steps := [] |} ]
+  = [([DRefuse 1005%Z RNotSatisfied], EClosedErr)].
+Proof. vm_compute. reflexivity. Qed.
+
+(* A command integer that is congruent to a registered one modulo 2^32 is a different
+   command: handler and policy are looked up under the same (unbounded) key. *)
+Example C05_wide_command_is_unknown :
+  snd (serve_conn [] {| c_srv := ex_srv None; c_peer := 1%N; c_first := Some DC_AUTHENTICATE;
+                        c_hs := HsFull {| f_cmd := (1005 + 2 ^ 32)%Z; f_authn := false; f_enc := false; f_user := 0%N;
+                                          f_sid := 1%N; f_haskey := false; f_auth_real := false; f_enc_real := false |};
+                        c_steps := [] |})
+  = ([DRefuse (1005 + 2 ^ 32)%Z RUnknown], EClosedErr).
+Proof. vm_compute. reflexivity. Qed.
 
 (* ---- composition with C03 (lead) ---------------------------------------------------------------
    The hypothesis [full_faithful] of C05_dispatch_real is exactly what C03 proves about every
